@@ -61,7 +61,7 @@ theorem step_progress (env : Env) (lenient : Bool) (st st' : LState) (s s' : Str
           obtain ⟨rfl, rfl⟩ := h
           exact ⟨by simp, hok⟩
       · simp only [bind, Except.bind] at h
-        cases hmp : matchPattern env (st.pos == 0) st.prev (c :: r) with
+        cases hmp : matchPattern env st.blank st.prev (c :: r) with
         | error e => simp [hmp] at h
         | ok v =>
           simp only [hmp] at h
@@ -131,7 +131,7 @@ theorem step_error_lexer (env : Env) (lenient : Bool) (st : LState) (s : Str) (e
           · simp at h
         · simp at h
       · simp only [bind, Except.bind] at h
-        cases hmp : matchPattern env (st.pos == 0) st.prev (c :: r) with
+        cases hmp : matchPattern env st.blank st.prev (c :: r) with
         | error e' => simp [hmp] at h; exact ⟨_, _, _, h.symm⟩
         | ok v =>
           simp only [hmp] at h
